@@ -857,6 +857,14 @@ def judge(data: bytes, strict=False, spec=SPEC) -> Verdict:
     return judge_tokens(lr.toks, strict, spec, lr)
 
 
+def _beyond_guaranteed_range(text):
+    digits = text.rstrip(b"KMGkmg").lstrip(b"0")
+    if len(digits) > 10:
+        return True
+    shift = {b"k": 10, b"m": 20, b"g": 30}.get(text[-1:].lower(), 0)
+    return (int(digits or b"0") << shift) > 2 ** 31 - 1
+
+
 def judge_tokens(toks, strict=False, spec=SPEC, lr=None) -> Verdict:
     gerr = None
     try:
@@ -872,6 +880,11 @@ def judge_tokens(toks, strict=False, spec=SPEC, lr=None) -> Verdict:
         s.block(tree, True)
     except RecursionError:
         return Verdict(UNSPEC, "nesting", None, ["too-deep"], toks, tree, lr)
+    for t in toks:
+        # RFC 5228 2.4.1: only 0..2^31-1 is guaranteed; larger values MAY be an error
+        if t.kind == "num" and _beyond_guaranteed_range(t.text):
+            s.unspec.append("number-beyond-2^31-1")
+            break
     if s.errors:
         idx, reason, cmd = min(s.errors, key=lambda e: e[0])
         v = Verdict(REJECT, reason, idx, s.unspec, toks, tree, lr)
